@@ -140,6 +140,8 @@ def engine_chooser(c, a, tr, rnd):
             return [call, nb] + bios + [-1, E_SSL, 0]         # whatever arrives is not a TLS record
         return [call, 0, -1, E_SSL, 0]
     init_after = 1
+    if call == 4:
+        return [call, nb] + bios + [1, 0, 1]                  # SSL_do_handshake: the remaining flights, nothing else
     if call == 3:
         if not W.init and steps:
             return [call, 0, -1, E_SSL, 0]                    # SSL_shutdown during the handshake fails
@@ -378,10 +380,6 @@ def stalled(c, tr):
 def finding_key(c, ti, why):
     if ti and any(k == 20 and a[0] in (41, 42) and a[1] == 0 and a[2:4] == [4, 8] for k, a in ti):
         return PENDING_KEY
-    if ti and plan_of(c):
-        st = stalled(c, ti)
-        if st and st[1] == 0 and plan_of(c)["role"] == "cli":
-            return IDLE_KEY
     return None
 
 
@@ -392,7 +390,7 @@ def monitor(c, tr):
     if p is None:
         return None
     if finding_key(c, tr, "") == PENDING_KEY:
-        return PENDING_KEY + " application data that arrives together with the end of the handshake is read and dropped by DriverPending(), std::logic_error escapes from Step/Run"
+        return "(F8) application data that arrives together with the end of the handshake is read and dropped by DriverPending(), std::logic_error escapes from Step/Run"
     for k, a in tr:
         if k == 98:
             n = a[0] if a else -1
@@ -415,7 +413,7 @@ def monitor(c, tr):
     st = stalled(c, tr)
     if st:
         if st[1] == 0 and p["role"] == "cli":
-            return IDLE_KEY + " an asynchronous TLS client that has nothing queued for sending never starts the handshake: the driver polls for POLLIN only, the ClientHello is never written"
+            return "an asynchronous TLS client that has nothing queued for sending never starts the handshake: the driver polls for POLLIN only, the ClientHello is never written (F9)"
         return ("the handshake can never complete: it owes the peer a flight, but the driver polled %d times without asking for writability "
                 "(the socket's write interest was lost)" % st[0])
     # C07 on TLS sockets: the time spent waiting inside one limited Send/Receive never exceeds its time-out
